@@ -7,7 +7,7 @@ Require Import Floats.SpecFloat.
 Require Import List ZArith NArith Bool Uint63.
 From Flocq Require Import Core BinarySingleNaN.
 From Dasp Require Import Base.Res Base.Float Sample.Rint Sample.ConvSpec Sample.ConvRun Sample.SampleFmt Sample.SampleOps
-  Frame.Frame Frame.FrameOps.
+  Frame.Frame Frame.FrameOps Frame.ChanIter.
 From DaspGen Require Import SampleTable.
 Import ListNotations.
 Open Scope Z_scope.
@@ -26,7 +26,11 @@ Inductive zop :=
 | ZAddF (fr other : list Z) | ZMulF (fr other : list Z)
 | ZToSigned (fr : list Z) | ZToFloat (fr : list Z) | ZEquilF
 (* bare-sample cases only: map bare -> [_; 1], map [_; 1] -> bare, add_amp with a [Signed; 1] argument *)
-| ZMapBA (fr outs : list Z) | ZMapAB (fr outs : list Z) | ZAddFA (fr other : list Z).
+| ZMapBA (fr outs : list Z) | ZMapAB (fr outs : list Z) | ZAddFA (fr other : list Z)
+(* iterator-adaptor script on ONE iterator: kind 0 channels() (by value), 1 channels_ref(), 2 channels_mut();
+   script = triples [code; a; b]: 0 next, 1 nth a, 2 skip a then next, 3 step_by a take b, 4 count, 5 last,
+   6 len + size_hint, 7 next_back, 8 rev take a *)
+| ZIter (kind : Z) (fr script : list Z).
 
 (* mode: 0 debug / 1 release;  fmt: SampleFmt.sfmt_code;  n: channel count;  bare: 1 = a bare sample used as a frame *)
 Inductive fcase := FCase (mode fmt n bare : Z) (ops : list zop).
@@ -45,6 +49,36 @@ Definition rec_idx {Y} (outs : list Y) : list nat -> nat -> res (Y * list nat) :
 Definition zb (b : bool) : Z := if b then 1 else 0.
 Definition znat (n : nat) : Z := Z.of_nat n.
 Definition hd1 {X} (l : list X) : res X := get_checked l 0.
+
+
+(* ---- iterator scripts ---- *)
+Fixpoint steps_of (fuel : nat) (l : list Z) : list step :=
+  match fuel, l with
+  | S f, c :: a :: b :: r =>
+    let an := Z.to_nat a in
+    (match c with
+     | 0 => SNext | 1 => SNth an | 2 => SSkipNext an | 3 => SStepBy an (Z.to_nat b) | 4 => SCount | 5 => SLast
+     | 6 => SLen | 7 => SNextBack | _ => SRevTake an
+     end) :: steps_of f r
+  | _, _ => []
+  end.
+
+(* kind 0: Channels does not override size_hint (core's default (0, None)); kinds 1, 2: slice iterators, (n, Some n) *)
+Definition enc_sobs {X} (e : X -> Z) (kind : Z) (s : step) (o : sobs X) : list Z :=
+  match o with
+  | OOpt None => [0]
+  | OOpt (Some v) => [1; e v]
+  | OList l => znat (length l) :: List.map e l
+  | ONat (Ok n) =>
+    match s with
+    | SLen => if kind =? 0 then [znat n; 0; -1] else [znat n; znat n; znat n]
+    | _ => [znat n]
+    end
+  | ONat _ => [-8]
+  | OUnsupported => [-1]
+  end.
+Definition enc_script {X} (e : X -> Z) (kind : Z) (sc : list step) (os : list (sobs X)) : list Z :=
+  0 :: List.concat (List.map (fun p => enc_sobs e kind (fst p) (snd p)) (combine sc os)).
 
 Section Run.
 Variable m : mode.
@@ -106,6 +140,10 @@ Definition run_arr_op (o : zop) : list Z :=
   | ZToSigned fr => obs_res (rmap (List.map es) (f_to_signed m f N (dl fr)))
   | ZToFloat fr => obs_res (rmap (List.map ef) (f_to_float m f N (dl fr)))
   | ZEquilF => 0 :: el (f_equilibrium f N)
+  | ZIter kind fr script =>
+    let sc := steps_of (length script) script in
+    if kind =? 0 then enc_script e kind sc (fst (channels_script N sc (dl fr)))
+    else enc_script e kind sc (fst (run_script_list sc (dl fr)))
   | _ => [-1]
   end end.
 
@@ -160,6 +198,13 @@ Definition run_bare_op (o : zop) : list Z :=
   | ZToSigned fr => obs_res (let* s := hd1 (dl fr) in rmap (fun r => [es r]) (m_to_signed m f s))
   | ZToFloat fr => obs_res (let* s := hd1 (dl fr) in rmap (fun r => [ef r]) (m_to_float m f s))
   | ZEquilF => [0; e (m_equilibrium f)]
+  | ZIter kind fr script =>
+    let sc := steps_of (length script) script in
+    match dl fr with
+    | [s] => if kind =? 0 then enc_script e kind sc (fst (mono_channels_script sc s))
+             else enc_script e kind sc (fst (run_script_list sc [s]))
+    | _ => [-1]
+    end
   | _ => [-1]
   end end.
 
